@@ -46,8 +46,8 @@ func NewCompositeSequenceDFA(re *syntax.Regexp) *CompositeSequenceDFA {
 	// maxMatch=1, or \w{2,8}) requires counting characters per part, which
 	// the DFA doesn't support — fall back to CompositeSearcher backtracking.
 	for _, p := range parts {
-		if p.minMatch == 0 {
-			return nil // Star quantifiers need more complex handling
+		if p.minMatch != 1 {
+			return nil // cc* / cc{2,}: states only track "seen >= 1 char" per part
 		}
 		if p.maxMatch > 0 {
 			return nil // Bounded max requires character counting
@@ -395,6 +395,13 @@ func (d *CompositeSequenceDFA) SearchAt(haystack []byte, at int) (int, int, bool
 		start = pos - 1
 
 	nextStart:
+		// The failed attempt only rules out starts inside the leading run of
+		// first-part bytes (their configurations are subsets of ours). A start
+		// beyond that run, e.g. 2 for [ax]+[bx]+[ay]+[cy]+ on "abaabac", may
+		// still match, so never skip past the end of that run.
+		skipTo := start
+		for start = matchStart; start < skipTo && firstPartClass[haystack[start+1]]; start++ {
+		}
 	}
 
 	return -1, -1, false
@@ -419,7 +426,7 @@ func IsCompositeSequenceDFAPattern(re *syntax.Regexp) bool {
 
 	// Check all parts have minMatch >= 1 and maxMatch == 0 (unbounded)
 	for _, p := range parts {
-		if p.minMatch == 0 {
+		if p.minMatch != 1 {
 			return false
 		}
 		if p.maxMatch > 0 {
